@@ -121,10 +121,10 @@ ExplainedByTrivialNegation(orig, res) ==
       H == {h \in NonInputSet(orig) : leaves(h) # {}}
       choices == FoldLeft(LAMBDA acc, h : {(h :> x) @@ f : f \in acc, x \in {h} \cup leaves(h)},
                           {[l \in Labels(orig) \ H |-> l]}, SetToSeq(H))
-      \* many candidate gates (circuits with constants and duplicated functions): at most two redirected gates
+      \* many candidate gates (circuits with constants and duplicated functions): at most three redirected gates
       few == UNION {{[l \in Labels(orig) |-> IF l \in S THEN f[l] ELSE l] :
                         f \in {g \in [S -> Labels(orig)] : \A h \in S : g[h] \in leaves(h)}} :
-                    S \in {T \in SUBSET H : Cardinality(T) \in 1 .. 2}}
+                    S \in {T \in SUBSET H : Cardinality(T) \in 1 .. 3}}
       cands == IF Cardinality(H) <= 7 THEN {m \in choices : \E h \in H : m[h] # h}
                ELSE IF Cardinality(H) <= 16 THEN few ELSE {}
   IN \E m \in cands : WF5(Redirect(orig, m)) /\ TT(Redirect(orig, m)) = TT(res)
